@@ -911,3 +911,68 @@ add(Q("c08_lcs_step_smt", "C08", harness="lcs_step", engine="smt", cap=(120, 300
       enc=["BlockHashPositionArrayImplInternal::edit_distance_internal (MIR: loop body, entry, exit)"],
       assumptions=["row encoding: cell i = number of zero bits of v below position i; mask bits only below len "
                    "(position-array validity, C17)", "symbols < 64 (the index assertion in the loop body)"]))
+
+
+# ------------------------------------------------------------------------------------
+# MANIFEST texts
+# ------------------------------------------------------------------------------------
+LEVEL_TEXT = {
+    "C01": "Solver verdict (CBMC) for one real update step / finalization from an ARBITRARY generator state satisfying a "
+           "representation invariant, compared with a pure-CTPH reference model; by induction this covers inputs of any "
+           "length, content and size (up to 192 GiB).  One query per concrete active block-size range (quick: boundary "
+           "ranges + seed-rotated sample; thorough: all 496).  Bounded model checking, not a proof: the invariant, the "
+           "abstraction function and the reference model are trusted as written (the model is validated natively against "
+           "880 libfuzzy-generated expectations).",
+    "C02": "Solver verdict over symbolic pairs of normalized hashes (contents symbolic, block hashes <= 7-10 symbols, "
+           "block-size pair concrete per query) for the comparison dispatch against the defined score; the kernels behind "
+           "it are covered at full width by C08 (inductive, 64 bit), C09 and C20.",
+    "C03": "Inductive step per update form from an arbitrary invariant state (two-byte chunks: the counter runs ahead, "
+           "cached pointers of the unsafe build survive an arbitrary first iteration); longer chunks by the stated "
+           "decomposition argument.",
+    "C04": "Bounded model checking of the parser kernels and drivers of all six types on fully symbolic byte strings "
+           "against an independent grammar model (quick: <= 10-16 bytes and kernel fields up to 40 bytes; thorough: "
+           "capacity classes up to 40 bytes, kernels up to 72 bytes).",
+    "C05": "Bounded model checking of the formatter on symbolic valid objects and symbolic buffers (full capacity in the "
+           "thorough tier) against an independent text model; allocating paths with short block hashes.",
+    "C06": "Bounded model checking of both instantiations of the normalization kernel against a local-criterion model: "
+           "every content up to a length bound (32 symbols full for <32>, 32-48 for <64>) and a full-capacity family with "
+           "one planted run of every length at every position; routes on bounded objects.",
+    "C07": "Bounded model checking of the RLE kernels against canonical-form models (unrestricted content up to 6-16 "
+           "symbols; planted-run family at full capacity in the thorough tier), update_rle_block on its whole "
+           "precondition, 'accepted => canonical', object wiring.",
+    "C08": "SMT (z3, second solver) inductive step of the bit-parallel LCS recurrence extracted from the MIR of the real "
+           "function at the full 64-bit width (strings of any length), plus CBMC bounded checks of the whole function "
+           "against a textbook DP on short strings.",
+    "C09": "Small-scope bounded model checking of the common-substring scan against its definition (64 symbols: |a|<=10, "
+           "|b|<=9; small alphabets up to |a|<=64, |b|<=16; arbitrary masks).",
+    "C10": "Bounded model checking of the score laws and of 'candidate <=> index windows intersect' on symbolic pairs; "
+           "window encoding and injectivity on complete domains.",
+    "C11": "One inductive step per operation: arbitrary valid inputs / dirty destinations give valid outputs; "
+           "out-of-contract constructors: 'returned => valid' with debug assertions on and off; validity checks total on "
+           "arbitrary bit patterns.",
+    "C12": "Bounded model checking from arbitrary (reset: completely arbitrary) generator states of the hint / reset / "
+           "error contract, tied to the C01 simulation invariant.",
+    "C13": "Complete-domain queries for the block-size border arithmetic (every size 0..=192GiB+1) and the C01 inductive "
+           "queries for the ranges that reach index 30 and the last-piece hash.",
+    "C14": "The same queries re-run per feature set x debug-assertion setting against the same reference models "
+           "(quick: 4 configurations x 6 queries; thorough: 14 configurations).",
+    "C15": "Bounded model checking per conversion edge on symbolic valid sources and dirty destinations (plain edges at "
+           "full capacity in the thorough tier).",
+    "C16": "Bounded model checking of Eq / Hash / Ord on symbolic pairs and triples against the documented order "
+           "(full capacity in the thorough tier).",
+    "C17": "Bounded model checking from an arbitrary pre-state: init_from / clear / From equal the reference masks; "
+           "has_sequences on its complete domain.",
+    "C18": "Bounded model checking of hash_stream_common with a nondeterministic reader (<= 3 reads x <= 2 bytes, "
+           "arbitrary error kind).  hash_file's File::open / metadata are operating-system I/O outside this technique.",
+    "C19": "Complete-domain CBMC query for the FNV step; SMT inductive step (from MIR) for the rolling hash: value after "
+           "any byte sequence is the stated function of the last seven bytes; bounded checks of the update forms.",
+    "C20": "Every query quantifies over the complete finite domain named in the property (no bound).",
+}
+for k, v in LEVEL_TEXT.items():
+    PROP_META.setdefault(k, {})["level_text"] = v
+PROP_META["C18"]["level_note"] = ("Trusted: Kani/CBMC, the Read contract as modelled by the harness reader.  NOT covered by "
+                                  "this technique: hash_file's File::open / metadata() (OS I/O: missing files, directories, "
+                                  "procfs entries) -- only the part of hash_file after the open (size hint + "
+                                  "hash_stream_common) is checked.")
+for k in ("C08", "C19"):
+    PROP_META[k]["engine"] = "kani-cbmc + mir2smt"
